@@ -60,6 +60,7 @@ type Obligation struct {
 	Note    string
 	Expect  string // "unsat" normally; "sat" for cover checks
 	Splits  []*Term
+	Extra   []*Term // additional hypotheses (law obligations: the second run's facts, callee law instances)
 	scanFail bool
 	ex      *Exec
 }
@@ -132,6 +133,7 @@ type Exec struct {
 	nSplits  int
 	caseTag  string
 	calls    []*callRec
+	lastArgStart []int
 	callSeq  int
 	usedContracts map[string]bool
 	genOwners map[*GenFunc]*FuncInfo
@@ -181,7 +183,7 @@ func (x *Exec) tagOn(tags []string) bool {
 }
 
 func (x *Exec) oblige(kind, site string, tags []string, pos token.Pos, st *State, goal *Term, note string) {
-	if x.spec > 0 {
+	if x.spec > 0 || x.lawMode {
 		return
 	}
 	if goal.IsTrue() || st.G.IsFalse() {
@@ -538,7 +540,13 @@ func (x *Exec) constBytes(st *State, s string) (blk *Term) {
 
 // ---------- frames ----------
 
+type fragOut struct {
+	arr map[*ssa.BasicBlock][]*State // states arriving at loop headers (fragment mode)
+}
+
 type Frame struct {
+	frag      *fragOut
+	fragStart *ssa.BasicBlock
 	fn     *ssa.Function
 	vals   map[ssa.Value]Val
 	allocs map[*ssa.Alloc]int
@@ -814,7 +822,11 @@ func (x *Exec) runBody(fr *Frame, entry *State) []retInfo {
 		x.fail("function %s has loops and no contract; cannot inline", fnKey(fn))
 	}
 	ins := map[*ssa.BasicBlock][]predState{}
-	ins[fn.Blocks[0]] = []predState{{nil, entry}}
+	startBlk := fn.Blocks[0]
+	if fr.fragStart != nil {
+		startBlk = fr.fragStart
+	}
+	ins[startBlk] = []predState{{nil, entry}}
 	var rets []retInfo
 	for _, b := range ci.rpo {
 		in := ins[b]
@@ -829,7 +841,7 @@ func (x *Exec) runBody(fr *Frame, entry *State) []retInfo {
 		if len(in) == 1 {
 			st = st.clone()
 		}
-		if ld, ok := ci.loops[b]; ok {
+		if ld, ok := ci.loops[b]; ok && fr.frag == nil {
 			x.loopHead(fr, ld, st)
 		}
 		var term ssa.Instruction
@@ -899,6 +911,13 @@ func (x *Exec) runBody(fr *Frame, entry *State) []retInfo {
 func (x *Exec) edge(fr *Frame, ci *cfgInfo, ins map[*ssa.BasicBlock][]predState, from, to *ssa.BasicBlock, st *State) {
 	if st.G.IsFalse() {
 		return
+	}
+	if fr.frag != nil {
+		if _, isHead := ci.loops[to]; isHead {
+			// fragment mode: every arrival at a loop header ends the fragment
+			fr.frag.arr[to] = append(fr.frag.arr[to], st)
+			return
+		}
 	}
 	if ci.backEdge[[2]int{from.Index, to.Index}] {
 		if !fr.top {
